@@ -12,12 +12,20 @@ LEVELS = {
     'C13': 'proof',
     'C01': 'proof',
     'C15': 'proof',
+    'C17': 'proof',
 }
 EXPLAIN = {
     'C07': 'Mixed: deductive (all real values at bounded sizes) for aligned_source/alignment_error/rejection on every alignment class, translation and affine recovery + optimality certificates, 2-D rotation orthogonality / built-from-svd / never-a-reflection, PWA vertex, per-triangle affine and edge-continuity clauses; bounded run-time contracts (seeded, never counted as proved) for 3-D rotations, similarity and uniform-scale recovery/size/optimality against an independent Kabsch reference. coverage.obligations/discharged count the deductive part, coverage.bounded_cases the stand-ins.',
 }
 NOT_CLAIMED = {}
 CLAIMS = {
+    'C17': dict(
+        engine='symnp (E2)',
+        design_ref='DESIGN.md §6 C17',
+        technique='contract-based deductive verification: masking contracts over symbolic coordinates/colours/tcoords with the structure enumerated exhaustively at small scope; geometric identities by rational-function normal form with constraint-free rotation parametrisations and sqrt/abs rewriting; structural/normal clauses that do not discharge are bounded run-time contracts',
+        text='Masking: 6 triangle lists (single, shared edge, isolated pair, non-manifold fan, unused vertex, strip) x every vertex mask and every triangle mask keeping a whole triangle x 3 mesh classes: kept triangles, dropped orphans, every kept triangle joins the same coordinates, colours/tcoords/texture/landmarks carried, input untouched - all attribute values. Geometry: areas and edge lengths non-negative, invariant under all rigid motions, scaling by s^2 / |s|; triangle normals unit and perpendicular (2-D and 3-D). Boundary detection, unique edges, vertex normals, normals under rotation and tiny units: bounded stand-in.',
+        note='Structure scope small (<=6 vertices, <=3 triangles), values universal; all-true mask is the identity by reading of the statement.',
+    ),
     'C15': dict(
         engine='symnp (E2)',
         design_ref='DESIGN.md §6 C15',
